@@ -480,12 +480,14 @@ def gen_fourbody(rng, event_idx=None, picks=None, namps=None, dangle=True):
         consts += [(f"{nm}::Spline::Min", "0.6"), (f"{nm}::Spline::Max", rng.choice(["3", "1.9"])), (f"{nm}::Spline::N", str(n))]
         order = list(range(n))
         rng.shuffle(order)
-        params += [(f"{nm}::Spline::Gamma::{i}", 2, repr(round(0.01 * (i + 1) ** 2, 6)), "0") for i in order]
+        floated = {rng.randrange(n)} if rng.random() < 0.4 else set()       # a member of the family floated in the fit (flag 0, with an error)
+        params += [(f"{nm}::Spline::Gamma::{i}", 0 if i in floated else 2, repr(round(0.01 * (i + 1) ** 2, 6)), "0.002" if i in floated else "0") for i in order]
     if any(r.ls and r.ls.startswith("kMatrix") for r in allres):
         k = rng.choice([2, 3, 5])
         order = list(range(k))
         rng.shuffle(order)
-        params += [(f"f_scatt{i}", 2, repr(round(0.1 + 0.05 * i, 5)), "0") for i in order]
+        ffree = {rng.randrange(k)} if rng.random() < 0.4 else set()
+        params += [(f"f_scatt{i}", 0 if i in ffree else 2, repr(round(0.1 + 0.05 * i, 5)), "0.01" if i in ffree else "0") for i in order]
         poles = [(i, nm) for i in (1, 2, 3) for nm in ("pipi", "KK", "4pi", "EtaEta", "EtapEta", "mass")]
         chosen = rng.sample(poles, rng.choice([3, 6, 9]))
         params += [(f"IS_p{i}_{nm}", 2, repr(round(0.1 * i + 0.01 * len(nm), 5)), "0") for i, nm in chosen]
